@@ -445,6 +445,14 @@ func runMerge(sc *streamScenario, vs []variantSpec, rec *recorder) {
 				s = append(s, many...)
 			}
 			v.PID = -1
+		case "foreignpat":
+			// a sound PAT-shaped section (table_id 0, valid CRC_32) on a PID that is not PID 0 (v.PID, a DVB SI PID the stream does not use),
+			// naming one of the stream's elementary PIDs (v.At) as a program map PID: only PID 0 carries the PAT
+			m := &tableModel{K: "pat", TID: 0, SSI: true, CNI: true, Ext: 7, PAT: &astits.PATData{Programs: []*astits.PATProgram{{ProgramNumber: 1, ProgramMapID: uint16(v.At)}}}}
+			s = append(s, packetise(v.PID, append([]byte{0}, twinSection(m)...), rg.intn(16))...)
+			for i := range bs.pkts {
+				s = append(s, pk(i)...)
+			}
 		case "corrupt":
 			for i := range bs.pkts {
 				p := &bs.pkts[i]
